@@ -119,17 +119,15 @@ CHECKS["C01"]["text"] = (
     "Coq theorems: for every history of statements on a fresh database (any number of tables, rows, leaf/internal/root "
     "splits, root moves of user tables and of both catalog trees), SELECT * of every user table computed by the model "
     "through its own catalog trees, tuple codec and sibling-chain scans equals the plain table specification of the "
-    "acknowledged statements, with strictly increasing row ids (C01_refines_partial_all_succeed / _early; "
-    "C01_refines_partial_lax covers every history, allowing a failed statement to leave a row prefix). The full statement "
-    "as first written is refuted by a vm_compute witness (recorded finding F11a: a failing multi-row INSERT keeps earlier "
-    "rows). Tree-level core: insertion above the maximum appends exactly one cell through any splits, scans return the "
+    "acknowledged statements, with strictly increasing row ids (C01_refines: every history, failing statements of any kind "
+    "included - they are atomic since /repo a9c009f/39dd145/144ab90, proved in Proofs/FailsEarly.v). Tree-level core: insertion above the maximum appends exactly one cell through any splits, scans return the "
     "live cells in order, no page shared. Tied to the code on every run: seeded histories on the real engine; after every "
     "statement every table, sys_schema and every page (offset, LSN, dirty flag, sibling fields, cells) compared with the "
     "model, tables judged by Spec/TableSpec.v.")
 CHECKS["C01"]["note"] = (
-    "Hypotheses of the refinement theorem: failing statements fail before changing anything (else the lax theorem "
-    "applies), column names of a table pairwise distinct (unproved region, no counterexample), values within int64 / "
-    "2^32 bytes, file below 2^63 bytes. Trusted: Coq kernel + vm_compute; hand-written model (Model/Tree.v, Store.v, "
+    "Hypotheses of the refinement theorem: literals within int64 / 2^32 bytes, file below 2^63 bytes (both limits of the "
+    "unbounded model, not of the code). Two hypotheses the proof once needed turned out to be defects and were repaired in "
+    "/repo: distinct column names (e322443) and early failures (the former findings F11a-c). Trusted: Coq kernel + vm_compute; hand-written model (Model/Tree.v, Store.v, "
     "Engine.v, Tuple.v) tied to the Go code by correspondence; SQL text parsed by the real parser while the model receives "
     "the intended statement tree (C10). Row ids are unbounded N in the model, uint32 in Go. No axioms.")
 CHECKS.update({
@@ -172,16 +170,15 @@ CHECKS.update({
          "expressible as SQL literals (direct values only). No axioms.",
     technique="Coq proof (codec round trip, refusal, size law) + boundary-value correspondence", design="6/C08"),
  "C14": dict(
-    text="Coq theorems: a statement that fails before its first page change (unknown table, duplicate table, column count / "
-         "type / range / size error in the first row, SET from a column, unevaluable WHERE) leaves pages, catalog and every "
-         "table unchanged; nothing of a failed statement reaches the log, so after a crash its effects are gone "
-         "(C14_failed_gone_after_crash); the full statement is refuted by three vm_compute witnesses (recorded findings "
-         "F11a-c) and C14_partial_prefix proves that what a failing statement leaves behind is always a row-operation prefix "
-         "of it. Correspondence: every error kind with the invalid row at every position k, tables before / after / after "
+    text="Coq theorems: in every reachable state a statement that returns an error leaves the store exactly as it was - pages, "
+         "catalog, every table, even the row-id and LSN counters (C14_atomic, from Proofs/FailsEarly.v: every row / matching "
+         "row / catalog row is checked before the first change, and under the refinement invariant nothing can fail after the "
+         "checks passed); nothing of a failed statement reaches the log (C14_failed_gone_after_crash). The three former "
+         "witnesses of the findings F11a-c are kept as examples of the repaired behaviour. Correspondence: every error kind with the invalid row at every position k, tables before / after / after "
          "restart.",
-    note="PARTIAL by the recorded findings F11a-c (failing multi-row INSERT / UPDATE / CREATE TABLE keep a prefix): printed as "
-         "KNOWN-FINDING with replayed witnesses; any other change by a failing statement is a violation. No axioms.",
-    technique="Coq proof (atomicity of early failures, refutation witnesses, prefix theorem) + failing-statement correspondence",
+    note="F11a-c were recorded as findings first and repaired later (/repo a9c009f, 39dd145, 144ab90: pre-validation pass). "
+         "Hypotheses: literals are Go values, file below 2^63 bytes. No axioms.",
+    technique="Coq proof (no late failure under the refinement invariant, atomicity) + failing-statement correspondence",
     design="6/C14"),
 })
 
@@ -221,11 +218,12 @@ CHECKS.update({
          "<= lastKey and every page LSN < nextLSN, and later statements behave as on the uncrashed database. Correspondence: "
          "histories under three flush policies with crashes at statement boundaries, double recoveries; after every crash and "
          "every later statement all tables and all pages compared with the model, tables judged by the specification.",
-    note="Hypotheses: H1 a statement that returns an error changed no page (violated exactly by the recorded findings F11a-c, "
-         "which belong to C14); H2 at each root move the sys_pages row found by name is the first live row holding the old "
-         "offset (holds whenever live catalog rows have distinct offsets; the engine now refuses DML on the catalog). The "
-         "unrestricted statement stays a Definition; C02_needs_atomicity shows it false without H1. Two defects found by the "
-         "proof attempt were repaired in /repo (c7d1b36, fd49896). No axioms.",
+    note="For histories of statements, flushes and crash-restarts the theorems hold with no hypothesis besides literals being Go "
+         "values and the file staying below 2^63 bytes (C02_*_noH1H2): H1 (failed statements change nothing) is derived "
+         "(Proofs/FailsEarly.v, HistNoH1.v) since the former findings F11a-c were repaired, H2 (root moves rewrite the row redo "
+         "rewrites) is derived from the refinement invariant (Proofs/MovesFromRep.v). Histories with crashes inside a log "
+         "append or a flush use the versions that still assume H2. Defects found by the proof attempts and repaired in /repo: "
+         "c7d1b36, fd49896. No axioms.",
     technique="Coq proof (do=redo, inert old records, invariant over event histories) + crash-at-boundary correspondence",
     design="6/C02"),
  "C03": dict(
@@ -235,7 +233,7 @@ CHECKS.update({
          "repaired when the cut separates a root-splitting insert from its root-move record; later statements continue "
          "correctly. Correspondence: every write/sync call of every DML statement of seeded histories is a crash point under "
          "both cut rules (~1250 crash states per quick run): recover, read, run further statements, crash and recover again.",
-    note="Same hypotheses H1/H2 as C02. In the half-pair cut the recovered store differs from the i-row store only in the LSN "
+    note="Hypothesis H2 as in C02 (H1 is derived now). In the half-pair cut the recovered store differs from the i-row store only in the LSN "
          "stamped on one sys_pages leaf (stated as seqL). Assumes a write call on the O_APPEND log is atomic and fsync durable. "
          "No axioms.",
     technique="Coq proof (reader prefix + prefix-state theorem) + crash-inside-log-append enumeration",
@@ -261,9 +259,9 @@ CHECKS.update({
          "the C02 recovery theorem); failed USE / CREATE DATABASE change nothing; SHOW lists exactly the created names; a "
          "statement, tick or USE touches only the selected (and newly selected) database. Correspondence: one engine.Session "
          "with the real 100 ms timer over 2-3 databases, pauses and restarts, contents read after every step.",
-    note="Hypotheses as in C01/C02 (failing statements fail early - F11a-c excluded; distinct column names; H2). Database names "
-         "are ASCII identifiers (a delimited identifier with '/' creates nested directories: outside the generated inputs). "
-         "No axioms.",
+    note="Hypotheses: literals are Go values, file below 2^63 bytes, H2 (C17_isolation_all_histories; H1 is derived now). "
+         "Database names that are paths or too long are refused (model: valid_dbname; /repo a710589, 71be150) and are part of "
+         "the generated inputs. No axioms.",
     technique="Coq proof (session invariant over event lists) + multi-database session correspondence",
     design="6/C17"),
  "C18": dict(
